@@ -26,7 +26,7 @@ type profile struct {
 }
 
 var profiles = map[string]profile{
-	"C01": {resets: true, on: []string{"agree"}, byz: 30, spec: 10, restarts: true, maxEvents: 140, forks: 1},
+	"C01": {resets: true, on: []string{"agree", "permtwin"}, byz: 30, spec: 10, restarts: true, maxEvents: 140, forks: 1},
 	"C02": {resets: true, on: []string{"delivery"}, byz: 20, restarts: true, maxEvents: 140, forks: 1},
 	"C03": {resets: true, on: []string{"cheaters"}, heavyOK: true, maxEvents: 120, forks: 2},
 	"C04": {on: []string{"frame", "reject"}, byz: 250, spec: 120, storms: true, restarts: true, maxEvents: 90, forks: 1},
